@@ -170,7 +170,8 @@ def generate(rng, tier, cls):
                             'main_encoding': main, 'ops': ops}, r],
                 'schedule': [], 'faults': []}
 
-    spec = gen.gen_foreign(rng, big=rng.chance(0.05), long_opts=True)
+    spec = gen.gen_foreign(rng, big=rng.chance(0.05), long_opts=True,
+                           unknown_labels=True)
     r = {'id': 'R1', 'kind': 'reader', 'file': 'f1'}
 
     if rng.chance(0.5):
